@@ -132,6 +132,14 @@ def span_op(s, ws):
     if op == "res":
         ctx = D.ResolutionContext(parse_endpoint(ws[1]), parse_endpoint(ws[2]))
         return s.resolve(ctx), ""
+    if op == "sl":
+        part = lambda w: None if w == "-" else int(w)
+        try:
+            r = s[slice(part(ws[1]), part(ws[2]), part(ws[3]))]
+            txt = "none" if r is None else "[" + ",".join(show_period(p) for p in r) + "]"
+        except Exception as e:
+            txt = err_kind(e)
+        return s, "sl=" + txt
     if op == "get":
         try:
             p = s[int(ws[1])]
@@ -344,7 +352,7 @@ SPAN_OPS = ["rev", "ss", "se", "sh", "add", "sub", "rs", "ls", "res", "get"]
 def rand_span_ops(rng, f, n, base):
     ops = []
     for _ in range(n):
-        op = rng.weighted([("rev", 3), ("ss", 3), ("se", 3), ("sh", 3), ("add", 2), ("sub", 2), ("rs", 1), ("ls", 1), ("res", 2), ("get", 4)])
+        op = rng.weighted([("rev", 3), ("ss", 3), ("se", 3), ("sh", 3), ("add", 2), ("sub", 2), ("rs", 1), ("ls", 1), ("res", 2), ("get", 4), ("sl", 3)])
         if op == "rev":
             ops.append("rev")
         elif op in ("ss", "se", "sh", "add", "sub"):
@@ -355,6 +363,9 @@ def rand_span_ops(rng, f, n, base):
             g = f if rng.chance(0.9) else rng.choice(["Y", "Q", "M", "I", "D"])
             a = base[g] + rng.randint(-25, 25)
             ops.append(f"res {g}:{a} {g}:{a + rng.randint(-3, 25)}")
+        elif op == "sl":
+            part = lambda lo, hi: "-" if rng.chance(0.35) else str(rng.randint(lo, hi))
+            ops.append(f"sl {part(-9, 9)} {part(-9, 9)} {part(-3, 3)}")
         else:
             ops.append(f"get {rng.randint(-9, 9)}")
     return ops
@@ -366,7 +377,7 @@ def gen_span_lines(ctx: Ctx):
     # exhaustive small scope: every (start, end, step) with |start-end| <= R, 1 <= |step| <= 5, then a fixed probe sequence
     R = 9 if ctx.quick else 14
     base = {"Y": 2020, "Q": 8080, "M": 24240, "I": 0, "D": 737425, "H": 4040}
-    probes = "get 0 | get -1 | get 1 | get 99 | rev | get 0 | get -1 | rev | sh 3 | add -2 | sub 1"
+    probes = "get 0 | get -1 | get 1 | get 99 | sl 1 - 2 | sl - - -1 | sl -2 - - | sl 0 0 - | rev | get 0 | get -1 | sl - 2 - | rev | sh 3 | add -2 | sub 1"
     for f in (["Q", "I"] if ctx.quick else ["Y", "H", "Q", "M", "D", "I"]):
         b0 = base[f]
         for d in range(-R, R + 1):
@@ -749,6 +760,12 @@ def oracle_spans(ctx: Ctx, lines):
                 ok = ok and all(s[-i].serial == want[-i] for i in range(1, len(want) + 1))
                 if want:
                     ok = ok and s[0] == s.start
+                # slices select by position: for a positive slice step they are the list's own slices; for a negative one the
+                # code returns the same positions in span order
+                for sl in (slice(1, None, 2), slice(None, None, None), slice(-2, None), slice(None, 2), slice(None, None, -1), slice(5, 0, -2)):
+                    got_sl = [p.serial for p in s[sl]]
+                    ref = want[sl] if (sl.step or 1) > 0 else sorted(want[sl], key=want.index)
+                    ok = ok and got_sl == ref
                 if not ok:
                     ctx.fail("span-enumeration", case, f"after {op}: iter={got[:8]} expected={want[:8]} len={len(s)}")
                 if len(want) >= 2:
